@@ -5,4 +5,7 @@ LEVEL = "proof"
 
 
 def contracts():
-    return gauss_newton.contracts()
+    from contracts import jets
+
+    # its use inside the residual-based Taylor-coefficient routine (what is handed to the solver, what is done with the answer)
+    return gauss_newton.contracts() + [jets.residual_routine_contract()]
